@@ -29,7 +29,16 @@ pub fn cfg() -> GenCfg {
 type UKey = (PathBuf, usize, usize, usize, String);
 
 pub fn inverse_relation(db: &FixtureDatabase, skip_files: &BTreeSet<PathBuf>, info: &mut CaseInfo) -> Result<(), String> {
-    let defs = all_defs(db);
+    inverse_relation_opts(db, skip_files, info, false)
+}
+
+/// `merge_equal_defs`: identical definition records (same file, line, name and fields - what the
+/// scan's revisit of an opened document leaves behind, C10's recorded finding) count as one definition
+pub fn inverse_relation_opts(db: &FixtureDatabase, skip_files: &BTreeSet<PathBuf>, info: &mut CaseInfo, merge_equal_defs: bool) -> Result<(), String> {
+    let mut defs = all_defs(db);
+    if merge_equal_defs {
+        defs.dedup();
+    }
     // refs per definition
     let mut listed: BTreeMap<UKey, Vec<usize>> = BTreeMap::new();
     for (di, d) in defs.iter().enumerate() {
@@ -136,6 +145,37 @@ pub fn check_ws(ws: &WorkspaceSpec, info: &mut CaseInfo) -> Outcome {
     }
 }
 
+#[derive(Clone, Debug, serde::Serialize, serde::Deserialize)]
+pub struct RescanCase {
+    pub ws: WorkspaceSpec,
+    /// files (bit = index mod 16) that the background scan visits AFTER the editor analysed them
+    /// (didOpen arrived first), with the same text
+    pub rescan_mask: u16,
+}
+
+/// The scan path re-analyses documents the editor already sent. Whatever that does to the
+/// definitions (C10's recorded finding: they are registered twice), references must stay the inverse
+/// of go-to-definition and list every usage once.
+pub fn check_rescan(c: &RescanCase, info: &mut CaseInfo) -> Outcome {
+    let m = Model::new(&c.ws);
+    let order = c.ws.order();
+    let db = build_db(&m, &order);
+    let mut n = 0;
+    for &fi in &order {
+        if (c.rescan_mask >> (fi % 16)) & 1 == 1 {
+            db.verif_analyze_file_fresh(PathBuf::from(m.path(fi)), &m.rendered[fi].text);
+            n += 1;
+        }
+    }
+    if n > 0 {
+        info.classes.push("scan revisits an opened document".into());
+    }
+    match inverse_relation_opts(&db, &BTreeSet::new(), info, true) {
+        Ok(()) => Outcome::Ok,
+        Err(e) => Outcome::Fail(format!("after the scan revisited {} opened document(s): {}", n, e)),
+    }
+}
+
 pub fn check_history(h: &History, info: &mut CaseInfo) -> Outcome {
     let cfg = hist_cfg();
     let m = Model::new(&h.ws);
@@ -169,6 +209,7 @@ pub fn run(ctx: &Ctx) {
         crate::props::lsp_tiers::c04_counters(ctx, &c.ws, info)
     });
     ctx.run_prop("lib-history", ctx.tier.pick(3_000, 150_000), 16, || history(hist_cfg(), 6), |h, info| check_history(h, info));
+    ctx.run_prop("lib-rescan", ctx.tier.pick(4_000, 200_000), 16, || (workspace(cfg()), proptest::num::u16::ANY).prop_map(|(ws, rescan_mask)| RescanCase { ws, rescan_mask }), |c, info| check_rescan(c, info));
 }
 
 pub fn lsp_cfg() -> GenCfg {
@@ -189,6 +230,10 @@ pub fn judge(ctx: &Ctx, sub: &str, case: &Value) -> Option<Outcome> {
         "lib-history" => {
             let h: History = from_case(case)?;
             Some(check_history(&h, &mut info))
+        }
+        "lib-rescan" => {
+            let c: RescanCase = from_case(case)?;
+            Some(check_rescan(&c, &mut info))
         }
         _ => None,
     }
